@@ -120,6 +120,12 @@ def gen_plan(seed, tier):
                  "move_fwd", "move_fwd", "rewind", "delete", "create"]
             plan["mutator"] = [rng.choice(ops)
                                for _ in range(rng.randint(1, 3))]
+    if transport == "local" and op == "fetch" and rng.random() < 0.4:
+        # the same second process next to an in-process fetch
+        plan["mutator"] = [rng.choice(
+            ["pack_refs", "repack", "pack_loose", "gc_default", "move_fwd",
+             "move_fwd", "move_fwd", "rewind", "create"])
+            for _ in range(rng.randint(1, 3))]
     # a client that asks for an object the server holds but does not
     # advertise, next to legitimate wants (a raced or hostile request)
     plan["hostile_want"] = (op == "fetch" and transport in ("net", "http") and
@@ -653,6 +659,19 @@ def run_plan(plan):
                     if adv.get(n):
                         rr.refs[b"refs/remotes/origin/" + n[5:]] = adv[n]
                         tips.append(adv[n])
+                # ... which takes them from the result: what the result says
+                # the remote's refs are is what was transferred
+                res_refs = getattr(outcome.get("result"), "refs", None) or {}
+                if not outcome.get("second_done"):
+                    for n in chosen:
+                        v = res_refs.get(n)
+                        if v and adv.get(n) and v != adv[n] and \
+                                v not in rr.object_store:
+                            viols.append({
+                                "sig": "C05/result-names-untransferred-tip/"
+                                f"{op}/{plan['transport']}",
+                                "detail": f"{n!r}: wanted {adv[n]!r}, the "
+                                f"result reports {v!r}, which is absent"})
             else:
                 rr = Repo(recv_path)
                 tips = list((outcome.get("cloned_refs") or {}).values())
